@@ -1,6 +1,8 @@
 -- REGENERATED on every run by /verif/check from the compiled /repo tree. Do not edit.
 namespace SdnsVerif.Gen.C19
 
+def bad_entry_table : List String := ["-", "20", "2020", "09", "0a", "2031302e302e302e302f38", "31302e302e302e302f3820", "2031302e302e302e302f3820", "0931302e302e302e302f38", "31302e302e302e302f380a", "323030313a6462383a3a2f333220", "31302e302e302e302f3878", "31302e302e302e302f382067617262616765", "31302e302e302e302f382c3139322e302e322e302f3234", "31302e302e302e302f382f38", "31302e302e302e302f38236c616e", "31302e302e302e30", "323030313a6462383a3a", "31302e302e302e302f", "2f38", "312e322e332e342f", "31302e302e302e302f3333", "3a3a2f313239", "31302e302e302e302f2d31", "31302e302e302e302f3038", "31302e302e302e302f2b38", "3031302e302e302e302f38", "31302e302e302f38", "31302e302e302e302e302f38", "666538303a3a3125657468302f3634", "6e6f742d612d63696472", "2a", "302e302e302e302f307830", "616e79"]
+def bad_entry_table_rejected : List Bool := [true, true, true, true, true, true, true, true, true, true, true, true, true, true, true, true, true, true, true, true, true, true, true, true, true, true, true, true, true, true, true, true, true, true]
 def bad_network_rejected : Bool := true
 def code_cookie : Nat := 10
 def code_keepalive : Nat := 11
@@ -11,6 +13,7 @@ def default_forward_v6 : Nat := 56
 def default_min_scope_v4 : Nat := 24
 def default_min_scope_v6 : Nat := 56
 def disabled_build_is_nil : Bool := true
+def duplicate_network_accepted : Bool := true
 def max_accepted_forward_v4 : Nat := 32
 def max_accepted_forward_v6 : Nat := 128
 def max_accepted_min_scope_v4 : Nat := 32
